@@ -45,7 +45,41 @@ def big_definitions(rng):
     out.append(Grammar([(nm(n), c) for n, c in g0.terms],
                        [Rule(nm(r.lhs), [nm(x) for x in r.rhs], None if r.anode is None else r.anode + "w" * rng.choice([5, 600]),
                              r.cost, r.transl) for r in g0.rules]))
+    out.append(many_contexts_grammar(rng))
     return out
+
+
+def many_contexts_grammar(rng):
+    """n bracketed items `ti B ti': with dynamic lookahead B gets one context per bracket, created when the parse
+    first meets it and numbered in the grammar's terminal-set table, which outlives the parse.  Its own input
+    generator makes the first inputs long (all brackets) and the later ones short and differently ordered, so that
+    a later parse asks for the per-context tables in another order than the one that numbered them."""
+    from .gram import Rule
+    n = rng.choice([12, 16, 24, 40])
+    terms = [("x", 999)] + [("t%d" % i, 1000 + i) for i in range(n)]
+    rules = [Rule("P", ["P", "I"], "l", 1, [0, 1]), Rule("P", ["I"], None, 0, [0])]
+    for i in range(n):
+        rules.append(Rule("I", ["t%d" % i, "B", "t%d" % i], "s", 1, [0, 1]))
+    rules.append(Rule("B", ["x"], "b", 1, [0]))
+    g = Grammar(terms, rules)
+    state = {"calls": 0}
+
+    def input_gen(r):
+        state["calls"] += 1
+        items = list(range(n))
+        r.shuffle(items)
+        if r.random() < 0.45:
+            pick = items
+        else:
+            pick = items[:r.randrange(1, 5)]
+        w = []
+        for i in pick:
+            w += ["t%d" % i, "x", "t%d" % i]
+        if r.random() < 0.15 and w:
+            w[r.randrange(len(w))] = "x"
+        return w
+    g.input_gen = input_gen
+    return g
 
 
 def defn_pool(rng, n_good=10, n_bad=8):
@@ -184,8 +218,11 @@ def gen_history(rng, defs, n_steps, mode):
             toks = []
             if o.defined and o.defn.g is not None:
                 g = o.defn.g
-                ins = gen.inputs_for(rng, g, 2, 4, 8)
-                w = rng.choice(ins) if ins else []
+                if getattr(g, "input_gen", None) is not None:
+                    w = g.input_gen(rng)
+                else:
+                    ins = gen.inputs_for(rng, g, 2, 4, 8)
+                    w = rng.choice(ins) if ins else []
                 code = g.code_of()
                 toks = [code[t] for t in w]
                 r = rng.random()
